@@ -106,6 +106,197 @@ def fallback_contract(run):
         run.add(f"C05/qfallback-calls-the-op-on-dequantized-args/path{pi}", r.hyps, z3.BoolVal(bool(ok)), "property", inst)
 
 
+# ------------------------------------------------------------------------------------------------ re-quantizing ops
+def absr(t):
+    return z3.If(t >= 0, t, -t)
+
+
+QMAX = {"qint8": 127, "qfloat8_e4m3fn": 448}
+
+
+def requant_ops(run):
+    """_softmax and where re-quantize their float result: deq(result) is within one step of the output scale of the float result
+    (for float8: it is the point of the scaled float8 grid nearest to it)."""
+    from qvc.tm_tensor import call_aten, new_input
+    from qvc.values import AtenOp, Builtin
+    from qvc.interp import RaiseEx
+
+    for opname in ("_softmax", "where-q-plain", "where-q-scalar", "where-q-q", "where-plain-q"):
+        for qname in ("qint8", "qfloat8_e4m3fn"):
+            for axis in (None, 0, -1):
+                inst = {"op": opname.split("-")[0], "case": opname, "qtype": qname, "axis": axis}
+                run.count_instance(op=opname, qtype=qname, axis=axis, case="requant")
+                E = OC.engine(run)
+                d0, d1 = z3.Ints("d0 d1")
+                csc = z3.Real("other_scalar")
+
+                def prog(E2, opname=opname, qname=qname, axis=axis):
+                    E2.assume(d0 >= 1)
+                    E2.assume(d1 >= 1)
+                    h = OC.H(E2, qname, axis)
+                    x = h.q([d0, d1], name="X")
+                    xd = OC.deq(E2, x)
+                    E2.ps["ufun_outs"] = []
+                    cond = other = None
+                    try:
+                        if opname == "_softmax":
+                            res = call_aten(E2, AtenOp("_softmax"), [x, -1, False], {})
+                        else:
+                            cond = new_input(E2, "C", "bool", [d0, d1])
+                            if opname == "where-q-plain":
+                                other = h.plain([d0, d1], name="O")
+                                a = [cond, x, other]
+                            elif opname == "where-q-scalar":
+                                other = csc
+                                a = [cond, x, other]
+                            elif opname == "where-q-q":
+                                other = h.q([d0, d1], name="O")
+                                a = [cond, x, other]
+                            else:
+                                other = h.plain([d0, d1], name="O")
+                                a = [cond, other, x]
+                            res = call_aten(E2, AtenOp("where"), a, {})
+                    except RaiseEx as e:
+                        return ("raises", e.exc, None, None, None, None, None, None)
+                    outs = list(E2.ps.get("ufun_outs", []))
+                    rd = OC.deq(E2, res)
+                    return ("value", res, rd, x, xd, cond, other, outs, h)
+
+                tag = f"{opname}/{qname}/axis{axis}"
+                try:
+                    rs = E.explore(Builtin("requant", prog), lambda E2: ([], {}), name="C05.requant")
+                except Unsupported as u:
+                    run.undecide(f"C05/requant[{tag}]", u, inst)
+                    continue
+                run.absorb(E)
+                if not run.expect_paths(rs, f"C05/requant[{tag}]", inst):
+                    continue
+                rp = lambda m, sd, i=dict(inst): replay_requant(m, sd, i)
+                for pi, r in enumerate(rs):
+                    if r.outcome != "return":
+                        run.add(f"C05/requant/case-harness[{tag}]/path{pi}", r.hyps, z3.BoolVal(False), "side", inst, {"outcome": repr(r.value)[:200]})
+                        continue
+                    E.focus(r)
+                    if r.value[0] == "raises":
+                        run.add(f"C05/requant/does-not-raise[{tag}]/path{pi}:{r.value[1].tname}", r.hyps, z3.BoolVal(False), "property", inst,
+                                {"raises": repr(r.value[1])[:200]}, replay=rp)
+                        continue
+                    _, res, rd, x, xd, cond, other, outs, h = r.value
+                    for o in r.obligations:
+                        if o.kind in ("torch-pre", "callee-pre", "assert"):
+                            run.add(f"C05/requant/no-runtime-error[{tag}]/path{pi}/{o.name}@{o.loc}", o.hyps, o.goal, "property", inst, replay=rp)
+                    if not isinstance(rd, STensor):
+                        run.add(f"C05/requant/returns-a-tensor[{tag}]/path{pi}", r.hyps, z3.BoolVal(False), "property", inst, replay=rp)
+                        continue
+                    run.add(f"C05/requant/shape[{tag}]/path{pi}", r.hyps, lib.shape_eq(rd.shape, [d0, d1]), "property", inst, replay=rp)
+                    if len(rd.shape) != 2:
+                        continue
+                    ids, inb = lib.idx_vars("i", [d0, d1])
+                    pf = scale_positive_facts(E, h)
+                    E.drain()
+                    # ---- the reference value u at the symbolic index
+                    if opname == "_softmax":
+                        sm = [(rec, o) for rec, o in outs if rec[1] == "_softmax"]
+                        ok = len(sm) == 1 and sm[0][1].rank == 2 and sm[0][0][2][1] in (-1, 1) and sm[0][0][2][2] is False and isinstance(sm[0][0][2][0], STensor)
+                        run.add(f"C05/requant/one-softmax-over-the-same-dim[{tag}]/path{pi}", r.hyps, z3.BoolVal(bool(ok)), "property", inst, replay=rp)
+                        if not ok:
+                            continue
+                        arg = sm[0][0][2][0]
+                        run.add(f"C05/requant/softmax-argument-shape[{tag}]/path{pi}", r.hyps, lib.shape_eq(arg.shape, [d0, d1]), "property", inst, replay=rp)
+                        a_, b_ = arg.elem(ids), xd.elem(ids)
+                        f0 = E.drain()
+                        run.add(f"C05/requant/softmax-of-the-dequantized-input[{tag}]/path{pi}", r.hyps + inb + f0, a_ == b_, "property", inst, replay=rp)
+                        u = sm[0][1].elem(ids)
+                    else:
+                        c = cond.elem(ids)
+                        xv = xd.elem(ids)
+                        if opname == "where-plain-q":
+                            ov = other.elem(ids)
+                            u = z3.If(c, ov, xv)
+                        else:
+                            ov = other if not isinstance(other, STensor) and not is_wrapper(other) else (OC.deq(E, other).elem(ids) if is_wrapper(other) else other.elem(ids))
+                            u = z3.If(c, xv, ov)
+                    got = rd.elem(ids)
+                    facts = E.drain() + list(E.ps.get("lazy_facts", []))
+                    hy = r.hyps + inb + facts + pf
+                    if not is_wrapper(res):
+                        # not re-quantized (per-axis where): the float result itself
+                        run.add(f"C05/requant/equal[{tag}]/path{pi}", hy, got == u, "property", inst, replay=rp, timeout=30)
+                        continue
+                    sc = res.fields["_scale"]
+                    sids = [z3.IntVal(0)] * len(sc.shape) if len(sc.shape) != 2 else [ids[k] if True else 0 for k in range(2)]
+                    if len(sc.shape) == 2:
+                        # keep-dim scale: index 0 along broadcast dims
+                        from qvc.sym import concrete_int, is_sym
+                        sids = [z3.IntVal(0) if (not is_sym(sc.shape[k]) and sc.shape[k] == 1) else ids[k] for k in range(2)]
+                    s = sc.elem(sids)
+                    facts2 = E.drain()
+                    hy = hy + facts2
+                    qmax = QMAX[qname]
+                    run.add(f"C05/requant/output-scale-positive[{tag}]/path{pi}", hy, s > 0, "property", inst, replay=rp)
+                    if qname == "qint8":
+                        rel_in = rel_out = absr(got - u) <= s
+                    else:
+                        # float8 codes: cast = round-to-nearest-even onto the grid (A-TORCH-EW, same axioms as C01)
+                        G = z3.Function(f"grid_{qname}", z3.RealSort(), z3.BoolSort())
+                        rne = z3.Function("rne_float8_e4m3fn", z3.RealSort(), z3.RealSort())
+                        v = z3.Real("v")
+                        y = z3.Real("y_quot")
+                        cl = z3.If(y < -qmax, z3.RealVal(-qmax), z3.If(y > qmax, z3.RealVal(qmax), y))
+                        ax = [y * s == u, G(v), v <= qmax, v >= -qmax, absr(rne(cl) - cl) <= absr(v - cl), rne(cl) <= qmax, rne(cl) >= -qmax]
+                        # the payload of the quantized input holds float8 values: grid points, which the cast maps to themselves
+                        dcode = x.fields["_data"].elem(ids)
+                        ax += [rne(dcode) == dcode, dcode <= qmax, dcode >= -qmax] + E.drain()
+                        hy = hy + ax
+                        rel_in = absr(got - u) <= absr(s * v - u)
+                        rel_out = absr(got - u) <= 32 * s   # the widest step of the e4m3 grid
+                    in_range = z3.And(u <= qmax * s, u >= -qmax * s)
+                    if opname == "_softmax":
+                        run.add(f"C05/requant/within-one-output-step[{tag}]/path{pi}", hy, rel_in, "property", inst, replay=rp, timeout=40)
+                    else:
+                        run.add(f"C05/requant/where/taken-from-the-quantized-input-is-exact[{tag}]/path{pi}", hy + [c], got == u, "property", inst, replay=rp, timeout=40)
+                        run.add(f"C05/requant/where/other-inside-the-input-range-within-one-step[{tag}]/path{pi}", hy + [z3.Not(c), in_range], rel_in, "property", inst, replay=rp, timeout=40)
+                        run.add(f"C05/requant/where/other-outside-the-input-range-within-one-step[{tag}]/path{pi}", hy + [z3.Not(c), z3.Not(in_range)], rel_out, "property", inst, replay=rp, timeout=40)
+
+
+def replay_requant(model, seed, inst):
+    import torch
+    from optimum.quanto import qtypes
+
+    torch.manual_seed(seed)
+    Q = native_cases()
+    qt = qtypes[inst["qtype"]]
+    axis = inst["axis"]
+    x = torch.randn(3, 4)
+    qx = Q(x, qt, axis)
+    cond = torch.tensor([[True, False, True, False]] * 3)
+    big = torch.full((3, 4), 100.0)
+    case = inst["case"]
+    progs = {
+        "_softmax": lambda: (torch.softmax(qx, -1), torch.softmax(qx.dequantize(), -1)),
+        "where-q-plain": lambda: (torch.where(cond, qx, big), torch.where(cond, qx.dequantize(), big)),
+        "where-q-scalar": lambda: (torch.where(cond, qx, 100.0), torch.where(cond, qx.dequantize(), 100.0)),
+        "where-q-q": lambda: (torch.where(cond, qx, Q(big + x, qt, axis)), torch.where(cond, qx.dequantize(), Q(big + x, qt, axis).dequantize())),
+        "where-plain-q": lambda: (torch.where(cond, big, qx), torch.where(cond, big, qx.dequantize())),
+    }
+    try:
+        got, want = progs[case]()
+    except Exception as e:
+        return {"case": case, "qtype": inst["qtype"], "axis": axis, "what": f"raises {type(e).__name__}: {str(e)[:160]}"}
+    gd = got.dequantize() if hasattr(got, "dequantize") else got
+    if tuple(gd.shape) != tuple(want.shape):
+        return {"case": case, "what": "shape differs"}
+    step = got._scale.max().item() if hasattr(got, "_scale") else 1e-6
+    rel = 2.0 ** -3 if inst["qtype"] != "qint8" else 0.0
+    bad = (gd - want).abs() > (step + rel * want.abs() + 1e-6)
+    if bad.any():
+        k = bad.nonzero()[0].tolist()
+        return {"case": case, "qtype": inst["qtype"], "axis": axis, "what": "differs from the float result by more than one step of the output scale",
+                "index": k, "got": gd[tuple(k)].item(), "want": want[tuple(k)].item(), "output_scale": step}
+    return None
+
+
+
 def build(run):
     from props import conformance
 
@@ -116,7 +307,7 @@ def build(run):
     run.assumptions += ["programs of depth 1..8: each op maps invariant-satisfying tensors to invariant-satisfying tensors (C06) and satisfies its relation; "
                         "relations compose (lemmas/Arith.lean inv_reach); that PyTorch routes composite python-level calls to these aten ops is assumed",
                         "dimensions >= 1; rank-2 operands (rank 1 for t()), argument patterns of the case table"]
-    run.not_decided += ["_softmax / where re-quantizing ops (within one output step): see C01 contract of quantize_activation", "mm / bmm / linear: C07",
+    run.not_decided += ["mm / bmm / linear: decided in C07 (aten.mm / aten.bmm / functional linear)",
                         "routing of python-level torch.* calls to aten ops (PyTorch dispatcher)"]
     E0 = run.engine()
     E0.load_module(OC.QOPS)
@@ -129,7 +320,7 @@ def build(run):
                 f"{OC.QBITS}::QBitsTensor.__torch_dispatch__", f"{OC.QBOPS}::_to_copy", f"{OC.QBOPS}::detach"):
         run.under_contract(E0, key)
     lib.lean_lemmas(run, ["inv_reach"])
-    for part in (fallback_contract, lambda r: OC.explore_cases(r, handler(r), "C05", r.tier)):
+    for part in (fallback_contract, requant_ops, lambda r: OC.explore_cases(r, handler(r), "C05", r.tier)):
         try:
             part(run)
         except Unsupported as u:
@@ -203,6 +394,9 @@ def replay_file(path):
     import json
     rec = json.load(open(path))
     inst = rec["instance"]
-    r = replay(rec.get("model") or {}, rec.get("seed", 0), inst.get("case"), inst)
+    if str(inst.get("case", "")).startswith(("_softmax", "where-")):
+        r = replay_requant(rec.get("model") or {}, rec.get("seed", 0), inst)
+    else:
+        r = replay(rec.get("model") or {}, rec.get("seed", 0), inst.get("case"), inst)
     print(json.dumps(r, indent=1, default=str))
     return 1 if r else 0
